@@ -236,9 +236,17 @@ func c20() {
 			}
 		}
 	}
+	for _, key := range []string{"txbuf|buffered-write-in-encode|transient", "txbuf|buffered-write-in-encode|persistent",
+		"txbuf|buffered-write-in-finalize|transient", "txbuf|buffered-write-in-finalize|persistent", "txbuf|finalize-itself|transient"} {
+		if sites[key] == 0 {
+			r.Inconclusive("site-never-faulted:" + key)
+			floor = 1 << 30
+			fmt.Printf("ERROR: property=C20 no fault was injected at %s\n", key)
+		}
+	}
 	r.Assume("only the transport (the transmitter callback / the Encoder) fails; reading the target never fails (Transmit documents read errors as non-terminal and reports them in-band)")
-	r.Assume("the failing call does not deliver its operation; a transient transport accepts every later call")
-	r.Finish("for every input (bounded exhaustive over {a,b}, seeded random with repeated blocks and splices, file sets through Transmit -> scripted Encoder -> DecodeToReceiver -> real receiver) the fault-free run fixes the call sequence; then every call index k is failed once (transient) or from k on (persistent); held = error returned or receiver content equals the target; distinct = distinct (route, transmit site, mode) pairs hit plus distinct success-with-complete-receiver sites", floor)
+	r.Assume("the failing call does not deliver its operation; a transient transport accepts every later call; a buffered transport loses the message whose wire write failed and reports the failure from the Encode or Finalize call that performed the write")
+	r.Finish("for every input (bounded exhaustive over {a,b}, seeded random with repeated blocks and splices, file sets through Transmit -> scripted Encoder -> DecodeToReceiver -> real receiver) the fault-free run fixes the call sequence; then every call index k is failed once (transient) or from k on (persistent); held = error returned or receiver content equals the target; distinct = distinct (route, transmit site, mode) pairs hit plus distinct success-with-complete-receiver sites; the Transmit route is also driven with buffered Encoders (capacity 2/3/7 and 1000: Encode only queues, the wire writes happen when the buffer fills and in Finalize) failing every wire write index and Finalize itself", floor)
 }
 
 // ---------------------------------------------------------------------------
@@ -277,6 +285,63 @@ func (s *scriptedEncoder) Encode(t *rsync.Transmission) error {
 }
 
 func (s *scriptedEncoder) Finalize() error { s.finalized++; return nil }
+
+// bufferedEncoder models a buffered transport (the remote endpoints' encoder
+// behaves like this): Encode only queues a copy of the message; the real
+// writes to the wire happen when the buffer is full and, for whatever is
+// still buffered at the end, in Finalize. Wire write index k fails (once, or
+// from k on); k == -2 makes Finalize itself fail after a complete flush.
+type bufferedEncoder struct {
+	capacity   int
+	k          int
+	mode       string
+	failFinal  bool
+	buffer     []*rsync.Transmission
+	wire       []*rsync.Transmission // what reached the other side
+	writes     int                   // wire writes attempted so far
+	inFinalize []bool                // per wire write of this run: did it happen inside Finalize?
+	hit        bool
+	hitInFinal bool
+	finalized  int
+}
+
+func (b *bufferedEncoder) flush(final bool) error {
+	for len(b.buffer) > 0 {
+		m := b.buffer[0]
+		b.buffer = b.buffer[1:]
+		i := b.writes
+		b.writes++
+		b.inFinalize = append(b.inFinalize, final)
+		if b.k >= 0 && (i == b.k || (b.mode == persistent && i > b.k)) {
+			if i == b.k {
+				b.hit, b.hitInFinal = true, final
+			}
+			return errInjected // the failed message is lost; later ones stay buffered
+		}
+		b.wire = append(b.wire, m)
+	}
+	return nil
+}
+
+func (b *bufferedEncoder) Encode(t *rsync.Transmission) error {
+	b.buffer = append(b.buffer, proto.Clone(t).(*rsync.Transmission))
+	if len(b.buffer) >= b.capacity {
+		return b.flush(false)
+	}
+	return nil
+}
+
+func (b *bufferedEncoder) Finalize() error {
+	b.finalized++
+	if err := b.flush(true); err != nil {
+		return err
+	}
+	if b.failFinal {
+		b.hit, b.hitInFinal = true, true
+		return errInjected
+	}
+	return nil
+}
 
 type queueDecoder struct {
 	queue []*rsync.Transmission
@@ -564,6 +629,63 @@ func c20transmitSet(r *vk.Run, col *collector, e *rsync.Engine, dir string, set 
 			col.add(map[string]string{"rule": "success-despite-failed-transmit", "site": infos[k].site, "mode": mode, "route": "transmit"},
 				total, fmt.Sprintf("%06d|%04d", set, k),
 				fmt.Sprintf("Transmit returned nil although encoding message %d (%s, site %s) failed (%s); %s", k, infos[k].desc, infos[k].site, mode, bad), w)
+		}
+	}
+	// The same through buffered transports: the failure may surface only from finalize.
+	total := 0
+	for _, f := range files {
+		total += len(f.Base) + len(f.Target)
+	}
+	for _, capacity := range []int{[]int{2, 3, 7}[set%3], 1000} {
+		ref := &bufferedEncoder{capacity: capacity, k: -1}
+		if err := rsync.Transmit(src, paths, sigs, rsync.NewEncodingReceiver(ref)); err != nil || len(ref.wire) != len(base.queue) {
+			r.Inconclusive("fault-free-buffered-transmit-failed")
+			fmt.Printf("ERROR: property=C20 fault-free buffered Transmit (capacity %d) failed: %v, %d of %d messages on the wire\n", capacity, err, len(ref.wire), len(base.queue))
+			continue
+		}
+		for k := 0; k <= len(ref.inFinalize); k++ { // k == number of writes: Finalize itself fails after a complete flush
+			for _, mode := range []string{transient, persistent} {
+				enc := &bufferedEncoder{capacity: capacity, k: k, mode: mode}
+				site := "finalize-itself"
+				if k == len(ref.inFinalize) {
+					if mode == persistent {
+						continue
+					}
+					enc.k, enc.failFinal = -1, true
+				} else if ref.inFinalize[k] {
+					site = "buffered-write-in-finalize"
+				} else {
+					site = "buffered-write-in-encode"
+				}
+				err := rsync.Transmit(src, paths, sigs, rsync.NewEncodingReceiver(enc))
+				runs++
+				if !enc.hit || (site != "buffered-write-in-encode") != enc.hitInFinal {
+					r.Inconclusive("buffered-fault-not-reached-as-planned")
+					continue
+				}
+				sites["txbuf|"+site+"|"+mode]++
+				if err != nil {
+					receive(enc.wire)
+					continue
+				}
+				s, derr := receive(enc.wire)
+				bad := ""
+				if derr != nil {
+					bad = "receiving side failed: " + derr.Error()
+				} else {
+					bad = complete(s)
+				}
+				if bad == "" {
+					sites["txbuf|success-and-receiver-complete|"+site]++
+					continue
+				}
+				w := map[string]any{"route": "rsync.Transmit -> encoding receiver with a buffered Encoder -> DecodeToReceiver -> receiver", "files": describeFiles(files),
+					"buffer_capacity": capacity, "failed_wire_write_index": k, "wire_writes_fault_free": len(ref.inFinalize), "mode": mode,
+					"messages_on_the_wire": len(enc.wire), "encoder_finalize_calls": enc.finalized, "difference": bad}
+				col.add(map[string]string{"rule": "success-despite-failed-transmit", "site": site, "mode": mode, "route": "transmit-buffered"},
+					total, fmt.Sprintf("%06d|%04d|%04d", set, capacity, k),
+					fmt.Sprintf("Transmit returned nil although the buffered transport (capacity %d) failed at %s (wire write %d of %d, %s); %s", capacity, site, k, len(ref.inFinalize), mode, bad), w)
+			}
 		}
 	}
 	return runs
